@@ -80,7 +80,9 @@ static int decrunch_lha(HIO_HANDLE *in, void **out, long *outlen)
         }
     }
 
-    if (!header || (long)header->length <= 0) {
+    /* The declared length is the allocation size: apply the unpack ceiling. */
+    if (!header || (long)header->length <= 0 ||
+        header->length > LIBXMP_DEPACK_LIMIT) {
         goto fail;
     }
 
